@@ -21,6 +21,7 @@ from .symexec import (
 )
 from .values import (
     IntSeqSort,
+    SAbsIter,
     SBool,
     SClosure,
     SDict,
@@ -332,6 +333,11 @@ class Interp(OpsMixin, BuiltinsMixin):
 
     def assign(self, target, v, env):
         if isinstance(target, ast.Name):
+            lm = getattr(self.c, "local_models", None)
+            if lm and target.id in lm and self.call_depth == 0 and isinstance(v, (SDict, SList)) and not v.items:
+                # contract-level abstraction of a local container that starts empty (a dict with symbolic keys as arrays,
+                # a list as a ghost multiset): the model object replaces the empty literal
+                v = lm[target.id](self)
             env.set(target.id, v)
         elif isinstance(target, (ast.Tuple, ast.List)):
             items = self.unpack(v, len(target.elts))
@@ -549,13 +555,26 @@ class Interp(OpsMixin, BuiltinsMixin):
                 continue
             cur = env.lookup(name)
             pre[name] = cur
+            rc = self.resolve(cur) if isinstance(cur, SUnion) else cur
+            if isinstance(rc, SMap):
+                # mutable map: havoc in place (aliases see the same object)
+                rc.dom = z3.Const(self.run.fresh(f"{key}.{name}.dom"), rc.dom.sort())
+                rc.arr = z3.Const(self.run.fresh(f"{key}.{name}.val"), rc.arr.sort())
+                continue
+            if isinstance(rc, SObj) and callable(rc.fields.get("__havoc__")):
+                rc.fields["__havoc__"](self, f"{key}.{name}")
+                continue
             self.set_existing(env, name, self.havoc_like(cur, f"{key}.{name}"))
         if has_yield and self.collectors:
             col = self.collectors[-1]
             col.seq = z3.Const(run.fresh(f"{key}.out"), col.seq.sort())
         for inv in spec.invariant:
             run.assume(self.spec_bool(inv, self.loop_env(env)))
+        for inst in getattr(spec, "instances", ()):
+            run.assume(self.spec_bool(inst, self.loop_env(env)))
         c = cond()
+        if isinstance(c, SBool):
+            c = c.e
         which = run.fork([c, z3.Not(c) if not isinstance(c, bool) else (not c)], label=key)
         if which == 0:
             # (2) preservation: one arbitrary iteration
@@ -659,7 +678,7 @@ class Interp(OpsMixin, BuiltinsMixin):
             env.set(idx_name, self.binop("Add", i, 1))
 
         mods = sorted(_assigned_names(st.body) | {idx_name} | _target_names(st.target))
-        spec2 = type(spec)(spec.invariant, spec.decreases, spec.modifies if spec.modifies is not None else mods, spec.ghost_step)
+        spec2 = type(spec)(spec.invariant, spec.decreases, spec.modifies if spec.modifies is not None else mods, spec.ghost_step, instances=getattr(spec, "instances", ()))
         self.invariant_loop(st, env, spec2, key, cond, pre_body)
 
     def st_Break(self, st, env):
